@@ -23,6 +23,7 @@ try:
         res[pid] = (p.returncode, len(viol), detail, time.time() - t0, p.stdout[-400:] if p.returncode not in (0, 1) else '')
 finally:
     subprocess.run(['git', '-C', '/repo', 'checkout', '--', '.'])
+    subprocess.run(['git', '-C', V, 'checkout', '--', 'evidence'])  # evidence of a seeded tree is not kept
 new = set(glob.glob(V + '/replays/*/*')) - before
 dst = os.path.join(V, 'work', 'seedruns', os.path.basename(os.path.dirname(patch)) + '_' + os.path.basename(patch))
 os.makedirs(dst, exist_ok=True)
